@@ -18,7 +18,7 @@ import (
 func dualEq(a, b dual.Number) bool { return sameVal(a.Real, b.Real) && sameVal(a.Emag, b.Emag) }
 
 func dualAlphabet() []dual.Number {
-	vals := []float64{-2, -1, 0, 1, 2, 0.5}
+	vals := []float64{-2, -1, 0, 1, 2, 0.5, -0.5, 4}
 	var out []dual.Number
 	for _, r := range vals {
 		for _, e := range vals {
@@ -88,10 +88,10 @@ func hdEq(a, b hyperdual.Number) bool {
 
 func hdAlphabet() []hyperdual.Number {
 	var out []hyperdual.Number
-	for _, r := range []float64{-1, 0, 1, 2} {
-		for _, e1 := range []float64{-1, 0, 1} {
+	for _, r := range []float64{-1, 0, 1, 2, 0.5} {
+		for _, e1 := range []float64{-1, 0, 1, 2} {
 			for _, e2 := range []float64{-1, 0, 2} {
-				for _, e12 := range []float64{-1, 0, 2} {
+				for _, e12 := range []float64{-1, 0, 2, 0.5} {
 					out = append(out, hyperdual.Number{Real: r, E1mag: e1, E2mag: e2, E1E2mag: e12})
 				}
 			}
@@ -173,7 +173,7 @@ func quatAlphabet(vals []float64) []quat.Number {
 }
 
 func genQuatRing(g *vlib.G) {
-	A := quatAlphabet([]float64{-1, 0, 1, 2})
+	A := quatAlphabet(vlib.Pick(g, []float64{-2, -1, 0, 1, 2}, []float64{-2, -1, 0, 1, 2, 0.5}))
 	for _, x := range A {
 		x := x
 		g.Case(fmt.Sprintf("quat x=%v", x), func(t *vlib.T) {
@@ -248,9 +248,11 @@ func dqEq(a, b dualquat.Number) bool { return qEq(a.Real, b.Real) && qEq(a.Dual,
 func dqAlphabet(thorough bool) []dualquat.Number {
 	Q := []quat.Number{
 		{}, {Real: 1}, {Imag: 1}, {Jmag: 1}, {Kmag: 1}, {Real: -1, Kmag: 1}, {Real: 1, Imag: 1}, {Jmag: 1, Kmag: -1}, {Real: 1, Imag: 1, Jmag: 1, Kmag: 1},
+		{Real: 2}, {Imag: 1, Jmag: 1}, {Real: -1, Imag: 1, Jmag: -1, Kmag: 1}, {Real: 0.5, Jmag: -0.5}, {Imag: -2}, {Real: -1}, {Real: 1, Kmag: -1},
 	}
 	if thorough {
-		Q = append(Q, quat.Number{Real: 2}, quat.Number{Imag: 1, Jmag: 1}, quat.Number{Real: -1, Imag: 1, Jmag: -1, Kmag: 1})
+		Q = append(Q, quat.Number{Imag: 1, Kmag: 1}, quat.Number{Real: 1, Jmag: 1}, quat.Number{Jmag: 2}, quat.Number{Real: -1, Imag: -1, Jmag: 1, Kmag: 1},
+			quat.Number{Real: 0.5, Imag: 0.5, Jmag: 0.5, Kmag: 0.5}, quat.Number{Kmag: -0.5}, quat.Number{Real: 2, Imag: -2}, quat.Number{Real: 1, Imag: -1, Jmag: -1, Kmag: -1})
 	}
 	var out []dualquat.Number
 	for _, r := range Q {
@@ -271,7 +273,7 @@ func genDualquatRing(g *vlib.G) {
 			zero := quat.Number{}
 			commuting := qEq(quat.Mul(x.Real, x.Dual), quat.Mul(x.Dual, x.Real))
 			n2 := qNorm2(x.Real)
-			if n2 == 1 || n2 == 2 || n2 == 4 {
+			if n2 == 1 || n2 == 2 || n2 == 4 || n2 == 0.5 || n2 == 0.25 || n2 == 8 {
 				// 1/|q|^2 is a power of two and the squared real part has power-of-two norm: everything is exact
 				// up to the rounding of Abs (sqrt), so compare with a tolerance of a few ulps.
 				xi := dualquat.Inv(x)
@@ -339,8 +341,11 @@ func dcClose(a, b dualcmplx.Number, tol float64) bool {
 	return cmplx.Abs(a.Real-b.Real)+cmplx.Abs(a.Dual-b.Dual) <= tol*s
 }
 
-func dcAlphabet() []dualcmplx.Number {
-	C := []complex128{0, 1, -1, 1i, -1i, 1 + 1i, 2, 1 - 2i, 0.5}
+func dcAlphabet(thorough bool) []dualcmplx.Number {
+	C := []complex128{0, 1, -1, 1i, -1i, 1 + 1i, 2, 1 - 2i, 0.5, -1 + 1i, 2i, -0.5i, 3, 2 - 1i, -2 - 2i}
+	if thorough {
+		C = append(C, 1-1i, -1-1i, 4, 0.25i, 3+4i, -3+1i, 0.5+0.5i, -2, 1+2i, 2+2i)
+	}
 	var out []dualcmplx.Number
 	for _, r := range C {
 		for _, d := range C {
@@ -357,7 +362,7 @@ func dcMulRef(x, y dualcmplx.Number) dualcmplx.Number {
 }
 
 func genDualcmplxRing(g *vlib.G) {
-	A := dcAlphabet()
+	A := dcAlphabet(g.Thorough())
 	for _, x := range A {
 		x := x
 		g.Case(fmt.Sprintf("dualcmplx x=%v", x), func(t *vlib.T) {
